@@ -37,6 +37,7 @@ def methodOf? (m : String) : Option Method :=
   else if m == "inverse_transform" then some .inverse
   else if m == "predict" then some .predict
   else if m == "predict_proba" then some .predictProba
+  else if m == "inspect" then some .inspect
   else none
 
 /-- the table machine: fitted state = the table; `app` looks the (method, argument) up -/
